@@ -81,7 +81,9 @@ def warm_start(
             logger.error("Warm start: No value for variable %s", var)
             raise SystemExit(1)
 
-        state.variables[var] = values
+        # The values take the type of the state variable
+        # (alive and active are stored as integers in the file and used as masks in the state)
+        state.variables[var] = np.asarray(values, dtype=state.dtypes[var])
 
     # # Instance variables with default
     # if "alive" not in wvars:
